@@ -8,5 +8,5 @@ def sub(path, old, new, count=1):
     d = os.path.dirname(path)
     fd, tmp = tempfile.mkstemp(dir=d, prefix=".edit-")
     os.write(fd, s.encode()); os.close(fd)
-    os.chmod(tmp, 0o644)
+    os.chmod(tmp, os.stat(path).st_mode & 0o777)
     os.rename(tmp, path)
